@@ -1197,4 +1197,92 @@ Proof.
   - rewrite params_rcd_reply. reflexivity.
 Qed.
 
+(* ---- the Params stream across pieces ---- *)
+Definition inner_at (rq0 : req) (X : bytes) : inner :=
+  mkInner (env_extend norm rq0 (fst (nv_run X))) (snd (nv_run X)).
+
+Lemma env_extend_app r a b : env_extend norm r (a ++ b) = env_extend norm (env_extend norm r a) b.
+Proof. unfold env_extend. apply fold_left_app. Qed.
+
+Lemma env_extend_id ps : forall r, r_id (env_extend norm r ps) = r_id r.
+Proof.
+  induction ps as [|p t IH]; intros r; [reflexivity|]. unfold env_extend in *. cbn [fold_left].
+  rewrite IH. reflexivity.
+Qed.
+
+Lemma env_extend_log id role flags ps : forall env,
+  env_extend norm (mkReq id role flags env) ps = mkReq id role flags (env ++ env_log norm ps).
+Proof.
+  induction ps as [|[n v] t IH]; intros env; unfold env_extend in *; cbn [fold_left].
+  - rewrite app_nil_r. reflexivity.
+  - change (env_insert norm (mkReq id role flags env) (fst (n, v)) (snd (n, v)))
+      with (mkReq id role flags (env ++ [(norm n, v)])).
+    rewrite IH. rewrite <- app_assoc. reflexivity.
+Qed.
+
+Lemma params_next_at rq0 X b : len (X ++ b) <= USIZE_MAX -> params_next (inner_at rq0 X) b = inner_at rq0 (X ++ b).
+Proof.
+  intros H. unfold params_next, inner_at. cbn [ireq ibuf]. rewrite (nv_run_app X b H).
+  destruct (nv_run X) as [pa ra]. cbn [fst snd]. destruct (nv_run (ra ++ b)) as [pb rb]. cbn [fst snd].
+  rewrite env_extend_app. reflexivity.
+Qed.
+
+Lemma nv_run_rest_app X b : len (X ++ b) <= USIZE_MAX -> snd (nv_run (snd (nv_run X) ++ b)) = snd (nv_run (X ++ b)).
+Proof.
+  intros H. rewrite (nv_run_app X b H). destruct (nv_run X) as [pa ra]. cbn [snd].
+  destruct (nv_run (ra ++ b)) as [pb rb]. reflexivity.
+Qed.
+
+Lemma run_junk' cap i id rs : r_id (ireq i) = id -> Forall (params_junk_ok id) rs -> Forall (gv_fits cap) rs ->
+  run (rec_fits cap) (Params i 0 0) rs (Params i 0 0) (flat_map (reply_for maxc (InParams id)) rs).
+Proof. intros <-. apply run_junk. Qed.
+
+Lemma run_piece_rcd' cap i id body pad : r_id (ireq i) = id ->
+  0 < len body < 65536 -> len pad < 256 -> bytes_ok body -> bytes_ok pad -> id < 65536 ->
+  (forall k, len (snd (nv_run (ibuf i ++ take k body))) < cap) ->
+  run (rec_fits cap) (Params i 0 0) [params_rcd id body pad] (Params (params_next i body) 0 0) [].
+Proof. intros <-. apply run_piece_rcd. Qed.
+
+Lemma run_end' cap i id pad : r_id (ireq i) = id -> len pad < 256 -> bytes_ok pad -> id < 65536 ->
+  len (snd (nv_run (ibuf i))) < cap ->
+  run (rec_fits cap) (Params i 0 0) [params_rcd id [] pad] (Done (ireq i)) [].
+Proof. intros <-. apply run_end. Qed.
+
+Lemma inner_at_id rq0 X : r_id (ireq (inner_at rq0 X)) = r_id rq0.
+Proof. unfold inner_at. cbn [ireq]. apply env_extend_id. Qed.
+
+Lemma run_pieces cap rq0 P pairs :
+  Forall pair_ok pairs -> Forall (pair_fits cap) pairs -> 0 < cap -> nv_write_all pairs = Some P ->
+  len P <= USIZE_MAX -> r_id rq0 < 65536 ->
+  forall pieces X Z, Forall (piece_ok (r_id rq0)) pieces ->
+    Forall (fun p => Forall (gv_fits cap) (pjunk p)) pieces ->
+    P = X ++ flat_map pbody pieces ++ Z ->
+    run (rec_fits cap) (Params (inner_at rq0 X) 0 0) (flat_map (piece_rcds (r_id rq0)) pieces)
+        (Params (inner_at rq0 (X ++ flat_map pbody pieces)) 0 0)
+        (flat_map (fun p => flat_map (reply_for maxc (InParams (r_id rq0))) (pjunk p)) pieces).
+Proof.
+  intros Hpo Hpf Hc HP HPl Hid. induction pieces as [|p t IH]; intros X Z Hok Hgv HPe.
+  - cbn [flat_map]. rewrite app_nil_r. constructor.
+  - apply Forall_cons_iff in Hok as [Hp Hok']. apply Forall_cons_iff in Hgv as [Hg Hgv'].
+    destruct Hp as (Hj & Hbl & Hpl & Hbo & Hpdo). cbn [flat_map] in *.
+    assert (Hsz : len (X ++ pbody p) <= USIZE_MAX).
+    { rewrite HPe in HPl. rewrite !len_app in *. lia. }
+    unfold piece_rcds at 1. rewrite <- !app_assoc.
+    eapply run_out.
+    + eapply run_app; [apply (run_junk' cap _ (r_id rq0)); [apply inner_at_id|exact Hj|exact Hg]|].
+      eapply (run_app _ _ [params_rcd (r_id rq0) (pbody p) (ppad p)]).
+      * apply run_piece_rcd'; try assumption; [apply inner_at_id|].
+        intros k. unfold inner_at. cbn [ibuf].
+        assert (Hszk : len (X ++ take k (pbody p)) <= USIZE_MAX).
+        { rewrite len_app in *. pose proof (len_take_le k (pbody p)). rewrite len_take in *. lia. }
+        rewrite (nv_run_rest_app X _ Hszk).
+        apply (nv_prefix_bound cap pairs Hpo Hpf Hc P (X ++ take k (pbody p))
+                 (drop k (pbody p) ++ flat_map pbody t ++ Z) HP).
+        rewrite HPe. rewrite <- !app_assoc. f_equal. rewrite <- (take_drop k (pbody p)) at 1.
+        rewrite <- !app_assoc. reflexivity.
+      * rewrite (params_next_at rq0 X (pbody p) Hsz). rewrite (app_assoc X (pbody p)).
+        apply (IH (X ++ pbody p) Z Hok' Hgv'). rewrite HPe. rewrite <- !app_assoc. reflexivity.
+    + cbn [app]. rewrite <- ?app_assoc. reflexivity.
+Qed.
+
 End Records.
